@@ -61,6 +61,8 @@ TrBatchRun ==
            expC  == [k \in 1..(Len(P) * Ev.reps) |-> RunOf(ComboMajor(P, Ev.reps)[k], Ev.limit, Ev.two)]
        IN IF fails THEN Ev.out = "Boom"
           ELSE /\ Ev.out = "ok"
+               \* one name: the bare records; a list of names (also of one): records by name
+               /\ \A k \in 1..Len(Ev.shapes) : Ev.shapes[k] = (IF Ev.sel = "str" THEN "list" ELSE "dict")
                /\ IF Ev.procs = 1 THEN ResOf(Ev.res) = expR \/ ResOf(Ev.res) = expC
                   ELSE SameBag(ResOf(Ev.res), expR)
 
